@@ -80,7 +80,8 @@
            (1 + delta19) Dfrac + n eta19 dist + E19max M for every vertex
            with l_j > 0 -- clusters of nearly equal lengths, near-zero
            segments and the last vertex included
-           (C19_vertex_fraction_position_ieee);
+           (C19_vertex_fraction_position_ieee), and for every vertex, l_j = 0
+           included, when dist > 0 (C19_vertex_fraction_position_full_ieee);
          * the GLOBAL Lipschitz bound for two distances in [0, dist] as the
            search locates them, and for position_at at two finite progresses
            in [0, 1]:  (1 + delta19) |b - a| + n eta19 dist + 2 E19max M per
@@ -99,9 +100,8 @@
    Catmull surplus seed (not stated; the one-step lemma
    InterpIEEEGlobal.add_increment holds for any non-negative accumulator), paths with a non-degenerate segment shorter
    than 2^-10 or an exact length above 2^40 (2^1000 for the theorems with
-   given segment indices), the vertex with l_j = 0 in
-   C19_vertex_fraction_position_ieee (progress 0: covered by
-   C19_progress_zero_is_first_vertex), progresses outside [0, 1] in the
+   given segment indices), a curve with dist = 0 (l_j / dist is NaN),
+   progresses outside [0, 1] in the
    Lipschitz statements (they are clamped: C19_progress_below_zero_is_clamped,
    C19_progress_above_one_is_clamped; not chained in).  The
    search oracle of harness/src/c19.rs keeps monitoring with the rounding
@@ -1137,3 +1137,19 @@ Theorem C19_global_lipschitz_ieee_progress :
     (edist (R2 qa) (R2 qb) <= G + 4 * E19max M)%R.
 Proof. exact global_lipschitz_progress_ieee. Qed.
 Print Assumptions C19_global_lipschitz_ieee_progress.
+
+(* VERTEX HITS for EVERY vertex of a curve with its natural lengths and a
+   positive dist (l_j = 0 included: the progress and the distance are then
+   zeros and the search may land anywhere in the cluster of zero lengths) *)
+Theorem C19_vertex_fraction_position_full_ieee :
+  forall (path : list Pos) (M : R) j pj lj,
+  Forall (fun p => coord_le p 20) path -> segs_ok path -> (length path <= 2 ^ 50)%nat ->
+  (poly_len (map R2 path) <= Raux.bpow Zaux.radix2 40)%R -> coords_le M path -> (0 <= M)%R ->
+  let lens := natural path D.zero in
+  let L := Curve.dist lens in
+  nth_error path j = Some pj -> nth_error lens j = Some lj -> (0 < B2R L)%R ->
+  let B := ((1 + delta19) * Dfrac (B2R lj) (B2R L) + INR (length path) * eta19 * B2R L + E19max M)%R in
+  exists q, position_at path lens (D.div lj L) = Done q /\
+    (Rabs (B2R (px q) - B2R (px pj)) <= B)%R /\ (Rabs (B2R (py q) - B2R (py pj)) <= B)%R.
+Proof. exact vertex_fraction_position_full_ieee. Qed.
+Print Assumptions C19_vertex_fraction_position_full_ieee.
